@@ -86,6 +86,19 @@ def templates(A, B, ka, kb, kt):
     return out
 
 
+def _subst(x, m):
+    """rename tables throughout a template's sql / metadata / expectation"""
+    if isinstance(x, str):
+        for a, b in m.items():
+            x = x.replace(a, b)
+        return x
+    if isinstance(x, dict):
+        return {_subst(k, m): v for k, v in x.items()}
+    if isinstance(x, (list, tuple)):
+        return type(x)(_subst(y, m) for y in x)
+    return x
+
+
 def tview(r):
     return {"source": r["source"], "target": r["target"], "intermediate": r["intermediate"], "table_edges": r["table_edges"]}
 
@@ -116,6 +129,17 @@ def run(tier):
                             c["scratch"] = scratch
                         cases.append(c)
                         meta.append(("template", name, exp, hint, (ka, kb, kt), ov))
+                    # namesakes: the same template over tables that share their bare name across schemas (source dw.orders, target stg.orders)
+                    if ka != kt and name in ("star_single", "insert_positional", "star_derived", "star_cte", "star_qualified", "unqualified_ax", "insert_explicit_list"):
+                        sub = lambda x: _subst(x, {"db.a": "dw.orders", "db.t": "stg.orders"})  # noqa: E731
+                        for prov in ("dummy", "sqlalchemy"):
+                            if prov == "dummy" and tier == "quick" and k % 3:
+                                continue
+                            c = {"sql": sub(sql), "dialect": "ansi", "metadata": sub(md), "provider": prov, "want": []}
+                            if prov == "sqlalchemy":
+                                c["scratch"] = scratch
+                            cases.append(c)
+                            meta.append(("template", name, sub(exp), hint, (ka, kb, kt), ov + ":namesakes"))
         # generated statements over schema-qualified tables with random metadata: table-level invariance + all-unknown equals no metadata
         g = sqlgen.Gen(random.Random(common.env.seed() * 86028121 + 17), schemas=("sa", "sb"), qualify_p=1.0)
         n = 300 if tier == "quick" else 4000
